@@ -49,8 +49,10 @@ def compile_ir(src_name, opt="-O1", ndebug=True, stub=False):
     return open(out).read(), " ".join(cmd)
 
 
-def exe_cmd(src, out, ndebug=True, stub=False, opt="-O1"):
+def exe_cmd(src, out, ndebug=True, stub=False, opt="-O1", asan=False):
     cmd = [CXX, "-std=c++17", opt, "-Wno-everything", "-I", INC, "-I", HARNESS]
+    if asan:
+        cmd += ["-g", "-fsanitize=address", "-fno-omit-frame-pointer"]
     if stub:
         cmd += ["-I", STUBINC]
     if ndebug:
@@ -59,9 +61,9 @@ def exe_cmd(src, out, ndebug=True, stub=False, opt="-O1"):
     return cmd
 
 
-def compile_exe(src_path, tag, ndebug=True, stub=False, opt="-O1"):
-    out = os.path.join(tmpdir(), "%s.%s" % (tag, "rel" if ndebug else "dbg"))
-    cmd = exe_cmd(src_path, out, ndebug, stub, opt)
+def compile_exe(src_path, tag, ndebug=True, stub=False, opt="-O1", asan=False):
+    out = os.path.join(tmpdir(), "%s.%s%s" % (tag, "rel" if ndebug else "dbg", ".asan" if asan else ""))
+    cmd = exe_cmd(src_path, out, ndebug, stub, opt, asan)
     r = subprocess.run(cmd, capture_output=True, text=True)
     if r.returncode != 0:
         raise RuntimeError("clang failed: %s\n%s" % (" ".join(cmd), r.stderr[-2000:]))
